@@ -68,6 +68,32 @@ templ seq(ops []Op) {
 							onclick={ scr(o.I, o.A) }
 						}
 					></button>
+				case "onel":
+					<button
+						if o.V {
+							onclick={ scr(o.I, o.A) }
+						} else {
+							onclick={ scr(o.J, o.B) }
+						}
+					></button>
+				case "onnest":
+					<button
+						if o.V {
+							if o.W {
+								onclick={ scr(o.I, o.A) }
+							} else {
+								onmouseover={ scr(o.J, o.B) }
+							}
+						}
+					></button>
+				case "hxel":
+					<button
+						if o.V {
+							hx-on::click={ scr(o.I, o.A) }
+						} else {
+							hx-on::click={ scr(o.J, o.B) }
+						}
+					></button>
 				case "hx":
 					<button hx-on::click={ scr(o.I, o.A) }></button>
 				case "cd":
@@ -94,6 +120,14 @@ templ seq(ops []Op) {
 					<span
 						if o.V {
 							class={ cls(o.I) }
+						}
+					></span>
+				case "ccel":
+					<span
+						if o.V {
+							class={ cls(o.I) }
+						} else {
+							class={ cls(o.J) }
 						}
 					></span>
 				case "cdyn":
@@ -236,6 +270,10 @@ type Job struct {
 	Order  []int  ` + "`json:\"order\"`" + `
 	Pre    []int  ` + "`json:\"pre\"`" + `
 	Stream bool   ` + "`json:\"stream\"`" + `
+	Ctor   string ` + "`json:\"ctor\"`" + `  // new | handler | literal: how the middleware is built
+	Mut    string ` + "`json:\"mut\"`" + `   // none | append | replace | truncate: what happens to the exported Classes afterwards
+	Pre2   []int  ` + "`json:\"pre2\"`" + `  // classes appended / replacing
+	Path   string ` + "`json:\"path\"`" + `  // stylesheet path (struct-literal constructions)
 }
 
 type Result struct {
@@ -294,7 +332,43 @@ func runHTTP(j Job, r *Result) {
 	if j.Stream {
 		opts = append(opts, templ.WithStreaming())
 	}
-	var h http.Handler = templ.NewCSSMiddleware(templ.Handler(seq(ops), opts...), pre...)
+	next := templ.Handler(seq(ops), opts...)
+	path := "/styles/templ.css"
+	var mw templ.CSSMiddleware
+	switch j.Ctor {
+	case "handler": // struct literal around the handler constructor
+		if j.Path != "" {
+			path = j.Path
+		}
+		mw = templ.CSSMiddleware{Path: path, CSSHandler: templ.NewCSSHandler(pre...), Next: next}
+	case "literal": // struct literals only
+		if j.Path != "" {
+			path = j.Path
+		}
+		var cs []templ.ComponentCSSClass
+		for _, p := range j.Pre {
+			cs = append(cs, ccls(p))
+		}
+		mw = templ.CSSMiddleware{Path: path, CSSHandler: templ.CSSHandler{Classes: cs}, Next: next}
+	default:
+		mw = templ.NewCSSMiddleware(next, pre...)
+	}
+	// what a program may do with the exported field before serving
+	switch j.Mut {
+	case "append":
+		for _, p := range j.Pre2 {
+			mw.CSSHandler.Classes = append(mw.CSSHandler.Classes, ccls(p))
+		}
+	case "replace":
+		var cs []templ.ComponentCSSClass
+		for _, p := range j.Pre2 {
+			cs = append(cs, ccls(p))
+		}
+		mw.CSSHandler.Classes = cs
+	case "truncate":
+		mw.CSSHandler.Classes = mw.CSSHandler.Classes[:len(mw.CSSHandler.Classes)/2]
+	}
+	var h http.Handler = mw
 	for k := 0; k < 2; k++ {
 		rec := httptest.NewRecorder()
 		h.ServeHTTP(rec, httptest.NewRequest("GET", "/", nil))
@@ -307,7 +381,7 @@ func runHTTP(j Job, r *Result) {
 		r.Errs = append(r.Errs, e)
 	}
 	rec := httptest.NewRecorder()
-	h.ServeHTTP(rec, httptest.NewRequest("GET", "/styles/templ.css", nil))
+	h.ServeHTTP(rec, httptest.NewRequest("GET", path, nil))
 	body, _ := io.ReadAll(rec.Result().Body)
 	r.CSS = b64(body)
 	r.CSSType = rec.Result().Header.Get("Content-Type")
